@@ -95,10 +95,12 @@ type ClusterCfg struct {
 	Perms      map[string][]*checker.Permissions
 	NdAccounts int // accounts per node in nd wallet "Wallet 1" (0 = none)
 	Specs      []WalletSpec
-	NameFmt    string            // instance / peer names; default "signer-%02d"
-	AdminIPs   []string          // administrator addresses of every instance; default 10.0.0.1
-	ExtraPeers map[uint64]string // further entries of every instance's peer table (configured peers that are not running)
-	Pops       []*Population     // ready-made populations for the first nodes (instead of Specs)
+	NameFmt    string   // instance / peer names; default "signer-%02d"
+	AdminIPs   []string // administrator addresses of every instance; default 10.0.0.1
+	// ForwardedPorts: every instance but the first lists one other instance under another port than the rest do.
+	ForwardedPorts bool
+	ExtraPeers     map[uint64]string // further entries of every instance's peer table (configured peers that are not running)
+	Pops           []*Population     // ready-made populations for the first nodes (instead of Specs)
 	// RealSender: the instances talk to each other through Dirk's own sender (services/sender/grpc: connection pool,
 	// TLS with the instance's certificate) and each other's real gRPC edge; Ports are the edges' loopback ports.
 	RealSender bool
@@ -158,7 +160,17 @@ func NewCluster(t *testing.T, rc *RunCtx, s *Sched, cfg ClusterCfg) *Cluster {
 		} else {
 			n.Pop = NewPopulation(t, fmt.Sprintf("node%d", i), specs)
 		}
-		sp, err := staticpeers.New(context.Background(), staticpeers.WithPeers(peerMap))
+		myPeers := peerMap
+		if cfg.ForwardedPorts && i > 0 && len(cfg.IDs) > 1 {
+			// This instance reaches one of the others through a forwarded port: same name, another port in its own table.
+			myPeers = map[uint64]string{}
+			for k, v := range peerMap {
+				myPeers[k] = v
+			}
+			j := (i + 1) % len(cfg.IDs)
+			myPeers[cfg.IDs[j]] = fmt.Sprintf("%s:%d", fmt.Sprintf(cfg.NameFmt, j+1), 9000+j+forwardedPortOffset)
+		}
+		sp, err := staticpeers.New(context.Background(), staticpeers.WithPeers(myPeers))
 		if err != nil {
 			t.Fatalf("peers: %v", err)
 		}
@@ -322,7 +334,7 @@ type nodeSender struct {
 
 func (s *nodeSender) dest(peer *core.Endpoint) (*Node, error) {
 	n := s.net.c.byName[peer.Name]
-	if n == nil || n.Port != peer.Port {
+	if n == nil || (n.Port != peer.Port && n.Port+forwardedPortOffset != peer.Port) {
 		return nil, fmt.Errorf("transport: no route to %s", peer.String())
 	}
 	return n, nil
@@ -646,3 +658,6 @@ func (c *Cluster) shareMeantFor(secret []byte) uint64 {
 	defer c.shareMu.Unlock()
 	return c.sentShares[string(secret)]
 }
+
+// forwardedPortOffset separates the port under which an instance is listed by a peer that reaches it through a forwarder.
+const forwardedPortOffset = 20000
